@@ -141,6 +141,9 @@ def opCps (args : List String) : String :=
   | ["inter", s, t] => match parseIvs s, parseIvs t with
     | some s, some t => showIvs (ofCps (CPS.intersect (toCps s) (toCps t)))
     | _, _ => "bad-request"
+  | ["addicase", s] => match parseIvs s with
+    | some s => showIvs (ofCps (Fold.addIcaseCodePoints (toCps s)))
+    | _ => "bad-request"
   | ["contains", s, c] => match parseIvs s, parseHex c with
     | some s, some c =>
       -- the faithful binary search must agree with the linear model (and never index out of bounds)
